@@ -6,6 +6,9 @@ ALL = ["C%02d" % i for i in range(1, 21)]
 
 # property -> (technique, decided clauses (short), not decided / assumptions)
 CLAIMED = {
+ "C09": ("sibling-shape comparison of the 23 stage functions, frozen who-may-call tables, stage-order reachability, veto-edge path search, expression normalisation of the container layout (go/ssa)",
+         "C09.1 every stage function: ascending range, one assertion to its own interface, one call on the ok edge, first failure stops and is returned; C09.2 refresh = left++middle++right, appendLeft/Right sides, derived container shares left/right, own middle, refresh chained transitively; C09.3 derived lists own their storage; C09.4 each stage called exactly from its frozen callers, once, in stage order, post-write only after success; C09.5 veto edges reach no later stage/handler/write and the vetoing status is kept; C09.6 container selection (global first, handler's container before body stages); C09.7 handler only on OK edges",
+         "plugin programs themselves; PostNewPeer/PostReg/PostListen fatal paths; ordering between different sessions"),
  "C01": ("value-identity, dominance, lockset, who-may-call and buffer-alias value-flow analyses over go/ssa",
          "C01.1 seq atomic-only; C01.2 pending-table key = frame seq = one atomic increment, stored before every write; C01.3 reply bound by the frame's own seq, body decoded into that call's result, metadata copied not aliased; C01.4 every WriteMessage under writeLock, Pack only from WriteMessage; C01.5 single reader, Unpack only from ReadMessage; C01.6 no use of a context after putContext; C01.7 pooled controllers: Get/bind/Call/Put order, fresh controller per pool object; C01.8 nothing derived without copy from a decoder's input buffer is stored into the decoded value (taint over []byte/string/url.Values/reflect.Value with library alias summaries)",
          "interleaving-level non-interference (the rules give the lock/ownership preconditions, not a proof over schedules); internals of sync.Map, encoding/json, encoding/xml, protobuf and thrift decoders (assumed to copy); third-party Proto implementations"),
